@@ -1,0 +1,27 @@
+//go:build verif
+
+package verifapi
+
+import (
+	"errors"
+	"image"
+
+	"github.com/deepteams/webp/internal/lossless"
+)
+
+// DecodeVP8L is lossless.DecodeVP8L: it decodes a bare VP8L bitstream (the
+// payload of a "VP8L" chunk) into an NRGBA image.
+func DecodeVP8L(data []byte) (*image.NRGBA, error) { return lossless.DecodeVP8L(data) }
+
+// VP8LErrorClass maps an error of lossless.DecodeVP8L to a coarse class:
+// "header" (bad signature / bad version) or "bitstream" (anything else).
+func VP8LErrorClass(err error) string {
+	switch {
+	case err == nil:
+		return ""
+	case errors.Is(err, lossless.ErrBadSignature), errors.Is(err, lossless.ErrBadVersion):
+		return "header"
+	default:
+		return "bitstream"
+	}
+}
